@@ -37,6 +37,29 @@ CHECKS = {
              "names; identity, no-mutation and bijection-inverse clauses per shape; counterexamples replayed concretely.",
         note="Trusts CrossHair/z3; alias map handed over as a hash-free Mapping (== scan) because symbolic strings cannot be "
              "hashed; names of length 1; maps of <= 2 keys; the text-parsing constructor is covered on picked concrete texts only."),
+    "C01": dict(
+        level="translation_validation", engine="sqlsmt", design="DESIGN.md section 4 C01",
+        technique="translation validation: z3 (bit-vector) equivalence of the emitted SQLite WHERE text (independent SQL "
+                  "parser + SQLite semantics model) with an OData reference semantics over an all-symbolic row; sat models "
+                  "replayed on real sqlite3",
+        text="Per generated filter the live lexer/parser/SQLite visitor produce the program; z3 decides, for every row "
+             "within the bound at once, whether SQLite would select exactly the rows OData keeps. unsat = right for all "
+             "rows in the bound; sat = a concrete row that is inserted into a real sqlite3 database and compared with the "
+             "reference before being reported.",
+        note="Trusts z3, the SQLite model (validated against real sqlite3 on every run) and the OData reference semantics; "
+             "integers in [-8,8] (16-bit, no overflow), strings <= 3 chars over a 9-char metacharacter alphabet; division by "
+             "zero / out-of-range substring assumed away; floats, date/time functions outside; two known findings "
+             "(SQLite LIKE case folding, unescaped field-valued LIKE patterns) excluded by region."),
+    "C09": dict(
+        level="translation_validation", engine="sqlsmt", design="DESIGN.md section 4 C09",
+        technique="translation validation in uninterpreted-function mode: z3 validity of SQLterm == ODataTerm with dialect "
+                  "functions uninterpreted, plus independent SQL parsing (well-formedness), leaf multiset and alias stripping",
+        text="Per generated filter x 3 dialects x alias: the emitted text must parse with an independent SQL parser, its "
+             "tree must be equal to the filter's for all field values (z3, functions uninterpreted, related by a template "
+             "table), contain every leaf exactly once, and the alias must qualify exactly the column references.",
+        note="Trusts z3, the independent SQL parser and the function template table; no engine exists here for standard SQL / "
+             "Athena, so counterexamples are replayed by re-running the live visitor and evaluating both trees under the "
+             "counter-model; known finding: standard-dialect floor/ceiling text (pinned by the repo's tests) is not SQL."),
 }
 
 NOT_YET = {}
@@ -102,7 +125,14 @@ def main():
         print("written (jsonschema not available to validate)")
 
 
-SOURCE_COMMITS = ["84fe7aa fix: AliasRewriter no longer rewrites function names, parameter names and lambda variables"]
+SOURCE_COMMITS = [
+    "84fe7aa fix: AliasRewriter no longer rewrites function names, parameter names and lambda variables",
+    "8ec0b37 fix: SQL dialects keep the grouping of arithmetic, NOT and infix function operands",
+    "cfe0caf fix: SQL dialects render unary minus instead of the text 'None'",
+    "88f1746 fix: SQL dialects translate 'null eq x' to IS NULL like 'x eq null'",
+    "beff0df fix: SQL dialects quote and escape literal LIKE patterns",
+    "71d765e fix: SQL dialects render a duration without components as a zero interval",
+]
 
 if __name__ == "__main__":
     main()
